@@ -290,6 +290,13 @@ def run_ec(ctx):
                                     "_site": "ec:invalid-key", **({"_refuse": True} if (j["crv"] not in EC.CURVES or not EC.valid_key(pub_mod(j))) else {})}))
             ops.append(("jwk.exc", {"prv": dict(peer, alg="ECMR"), "pub": dict(K.public(j) if "d" in j else j, alg="ECMR"), "_why": why + " (ECMR, remote key)",
                                     "_site": "ec:invalid-key", **({"_refuse": True} if (j["crv"] not in EC.CURVES or not EC.valid_key(pub_mod(j))) else {})}))
+            if "d" in j:
+                # the remote key handed over together with its private value: an inconsistent d is refused there too
+                ops.append(("jwk.exc", {"prv": peer, "pub": j, "_why": why + " (exchange, remote key given with its d)", **base}))
+                ops.append(("jwk.exc", {"prv": dict(peer, alg="ECMR"), "pub": dict(j, alg="ECMR"), "_why": why + " (ECMR, remote key given with its d)", **base}))
+                if i < 3:
+                    ops.append(("jwe.enc", {"jwe": {"protected": {"alg": "ECDH-ES", "enc": "A128GCM"}}, "jwk": j, "pt": "00", "rand": rng.randbytes(120).hex(),
+                                            "_why": why + " (ECDH-ES wrap to this key, given with its d)", **base}))
             if i < 3:
                 pubj = K.public(j) if "d" in j else j
                 ops.append(("jwe.enc", {"jwe": {"protected": {"alg": "ECDH-ES", "enc": "A128GCM"}}, "jwk": pubj, "pt": "00", "rand": rng.randbytes(120).hex(),
@@ -308,6 +315,33 @@ def run_ec(ctx):
                 t2 = copy.deepcopy(t)
                 t2["header"]["epk"] = fn(t2["header"]["epk"])
                 ops.append(("jwe.dec_jwk", {"jwe": t2, "jwk": pool[name], "rand": "00" * 64, "_refuse": True, "_site": "ec:invalid-epk", "_why": label + " on " + pool[name]["crv"]}))
+    # every ECDSA algorithm with a key of every curve: only the algorithm's own curve is admitted, whoever names the
+    # algorithm (protected header, unprotected header, or the key's own "alg" - a key that claims ES256 while lying on
+    # P-521 is refused like any other).  The token to verify is signed by an independent ECDSA over that very key with
+    # the algorithm's hash, so that only the curve rule can refuse it.
+    algcrv = {"ES256": ("P-256", hashlib.sha256), "ES384": ("P-384", hashlib.sha384), "ES512": ("P-521", hashlib.sha512), "ES256K": ("secp256k1", hashlib.sha256)}
+    n0 = len(ops)
+    for alg, (crv, hf) in algcrv.items():
+        for kn in ("EC-P256", "EC-P384", "EC-P521", "EC-K256"):
+            key = pool[kn]
+            mism = key["crv"] != crv
+            for claim in (False, True):
+                j = dict(key, alg=alg) if claim else key
+                for place in ("protected", "header") + (("key",) if claim else ()):
+                    sigt = {} if place == "key" else {place: {"alg": alg}}
+                    flag = {"_refuse": True} if mism else {"_accept": True}
+                    why = "a %s key%s for %s named by the %s" % (key["crv"], " declaring alg=%s" % alg if claim else "", alg, place)
+                    ops.append(("jws.sig", {"jws": {"payload": pay}, "sig": sigt, "jwk": j, "_site": "ec:curve-mismatch", "_why": why + " (sign)", **flag}))
+                    prot = G.enc({"alg": alg}) if place == "protected" else None
+                    signed = ((prot or "") + "." + pay).encode()
+                    sg = EC.ecdsa_sign(key, hf(signed).digest(), int.from_bytes(rng.randbytes(70), "big"))
+                    tok = {"payload": pay, "signature": G.b64u(sg)}
+                    if prot:
+                        tok["protected"] = prot
+                    if place == "header":
+                        tok["header"] = {"alg": alg}
+                    ops.append(("jws.ver", {"jws": tok, "jwk": K.public(j), "all": False, "_site": "ec:curve-mismatch", "_why": why + " (verify, signature valid under that key)", **flag}))
+    ctx.count("ecdsa alg x curve cases", len(ops) - n0)
     cmp(ctx, ops, mask)
     ctx.count("ec-variants", len(ops))
 
@@ -351,6 +385,28 @@ def run_sym(ctx):
                                     "_site": "kw:length", "_why": why + " (wrap)"}))
             if tokr.get("ok"):
                 ops.append(("jwe.dec_jwk", {"jwe": tokr["jwe"], "jwk": key, "rand": "00" * 64, flag: True, "_site": "kw:length", "_why": why + " (unwrap)"}))
+    # RFC 3394 key data: at least two 64-bit blocks and a whole number of them; wrapped text is 8 bytes longer.  A content
+    # key the caller supplies (jose_jwe_enc_jwk) of any other length must not be wrapped, an "encrypted_key" of any
+    # other length must not unwrap - with every algorithm that ends in AES key wrap
+    pool = K.pool(ctx.jose)
+    kwlike = [(w, {"kty": "oct", "k": G.b64u(rng.randbytes(n_))}, {}) for w, n_ in E.KW.items() if "GCM" not in w]
+    kwlike += [("ECDH-ES+A128KW", pool["EC-P256"], {}), ("ECDH-ES+A256KW", pool["EC-P521"], {}),
+               ("PBES2-HS256+A128KW", {"kty": "oct", "k": G.b64u(b"password")}, {"p2c": 1000})]
+    for w, key, extra in kwlike:
+        prot = dict({"alg": w, "enc": "A128GCM"}, **extra)
+        tokr = ctx.real([("jwe.enc", {"jwe": {"protected": prot}, "jwk": key, "pt": "aabb", "rand": rng.randbytes(200).hex()})])[0]
+        for n in list(range(0, 42)) + [48, 64, 1024]:
+            good = n >= 16 and n % 8 == 0
+            flag = "_accept" if good else "_refuse"
+            ops2 = ("jwe.enc_jwk", {"jwe": {"protected": prot}, "rcp": {}, "jwk": key, "cek": {"kty": "oct", "k": G.b64u(rng.randbytes(n))},
+                                    "rand": rng.randbytes(200).hex(), flag: True, "_site": "kw:data-length",
+                                    "_why": "%d bytes of key data under %s (wrap)" % (n, w)})
+            ops.append(ops2)
+            if tokr.get("ok") and not good or n == 0:
+                t2 = json.loads(json.dumps(tokr["jwe"]))
+                t2["encrypted_key"] = G.b64u(rng.randbytes(n))
+                ops.append(("jwe.dec_jwk", {"jwe": t2, "jwk": key, "rand": "00" * 64, "_refuse": True, "_site": "kw:data-length",
+                                            "_why": "a %d-byte encrypted_key under %s (unwrap)" % (n, w)}))
     cmp(ctx, ops, mask)
 
 
